@@ -7,19 +7,26 @@ CHECK = {
                  "(3) re-initialisation histories: every ordered pair (thorough: also every triple) of register lists from a small family initialised "
                  "one after the other on the same area array, then every window; "
                  "(4) a structured boundary family of large tables (65533..65544 registers, handles/addresses/lengths straddling 2^16; one of 65534); "
-                 "(5) tables with one or two zero-sized areas (no address mapped by them) at every list position and admissible base, every window",
+                 "(5) tables with one or two zero-sized areas (no address mapped by them) at every list position and admissible base, every window; "
+                 "(6) the family of (1) and the tables of (2) once more at the top of the address space (last word of the table = 0xffffffff) x every "
+                 "(address,length) from one below the first area up to 0xffffffff with address+length <= 2^32",
     "rule": "a case is (table or history, operation, window[, fault position]): block read compared word by word with the flat model on an exact-size "
             "heap buffer (under a fired read fault only memory safety, storage purity and 'a reported success holds the stored words' are demanded), "
             "or iteration run under every script (never stop; k-th call returns -1/+1; large tables: first/last call) and compared with the list of "
             "overlapping registers (a negative callback result must be answered with a code other than SUCCESS and the register's address: the statement fixes "
             "the address, not the enum value); every case is non-trivial except those of a table / history / large table whose (re-)initialisation is "
             "refused: such a table is not judged (the statement is about initialised tables, what register_init accepts is C04's business), the refusal of a "
-            "first initialisation is recorded as a cap (exhaustive=False, exit 0)",
+            "first initialisation is recorded as a cap (exhaustive=False, exit 0); the reference forms every "
+            "exclusive end (address + length, register address + words, base + size) in 64 bits, so extents ending at 2^32 are represented exactly",
     "assumptions": ["tables from the small-scope family of harness/regfam.h (<= 3 areas, <= 5 registers, addresses 0..9), plus 320 tables of 3/4 adjacent areas "
                     "(each area callback-backed / memory-backed / not flagged readable / not flagged readable and without read function), plus a reduced family "
                     "at address shifts 0x7ffffffc and 0xfffffff5 (straddling 2^31, ending at 0xfffffffe)",
                     "callback results: -1/+1 at every position, +-2, +-256, +-65536, INT_MIN, INT_MAX at the first and last overlapping register",
-                    "ranges that wrap around the 32-bit address space are outside the statement and not generated",
+                    "top-of-address-space family: layouts A-D of regfam.h moved up so that the last word of the layout is 0xffffffff x memory-/callback-backed x LE/BE x "
+                    "every single register (5 types x every placement x 6 constraint kinds), register pairs (quick: adjacent or one word apart), the curated lists, every "
+                    "access-flag combination of the F2 part (readable / write-only areas in every position), plus the 320 tables of 3/4 adjacent areas ending at 0xffffffff; "
+                    "windows and iteration ranges: every (address, length) over the addresses from one below the first area up to 0xffffffff with address + length <= 2^32",
+                    "ranges that wrap around the 32-bit address space (address + length > 2^32) are outside the statement and not generated",
                     "re-initialisation histories keep the area array and replace the register list (unconstrained 16/32-bit registers; per area: none, "
                     "first word, every word, last word, 32-bit at the base); quick: pairs on layouts B, D, E with the three-filling menu",
                     "large tables: three shapes, areas memory-backed or callback-backed with computed words; windows start around address/handle 2^16 and the area edges; "
@@ -39,7 +46,7 @@ CHECK = {
                                      "fault-first-chunk", "fault-later-chunk",
                                      "reinit-read-ok", "reinit-read-unmapped", "reinit-iter-none", "reinit-iter-some", "reinit-iter-all",
                                      "reinit-iter-from-emptied-area"]},
-        # big-* (large tables) and read-ok-across-empty-area (zero-sized areas) are not required: a library that refuses those tables at
+        # top-* (tables at the top of the address space), big-* (large tables) and read-ok-across-empty-area (zero-sized areas) are not required: a library that refuses those tables at
         # register_init (narrower handle type; C04's business) ends them as *-init-refused with a cap, which is not a vacuity failure
     }],
 }
